@@ -86,6 +86,12 @@ class PropertyRun:
         except RecursionError as e:
             self.unsupported(what, 'recursion limit: %s' % e)
             return []
+        except (KeyError, AttributeError, IndexError, TypeError, ValueError, AssertionError, NameError) as e:
+            # the harness could not follow the shape of the code (renamed local, moved statement ...): undecided, never an alarm
+            import traceback
+            self.undecided.append({'obligation': what, 'reason': 'harness does not fit the code on this tree (%s: %s) at %s' % (
+                type(e).__name__, str(e)[:120], traceback.format_exc().strip().splitlines()[-3].strip()[:120])})
+            return []
         self.add_paths(paths)
         for ctx, kind, val in paths:
             if kind == 'raise' and not ctx.obligations:
